@@ -76,6 +76,7 @@ class FloCheck(Check):
     shrink_fields = []
     shrink_budget = (6000, 90.0)
     feature_probes = ()
+    project = None      # optional: event -> bool, the events this property is about (see execute)
 
     def generate(self, S, index, tier):
         return gen_program(S.gen, self.cfg)
@@ -155,6 +156,17 @@ class FloCheck(Check):
                                 "tick %s: %s\n%s\n%s" % (impl[d][0] if d < len(impl) else "?", what, ctx, script[:3500]))
                 else:
                     out.probe("disagreement-owned-by-other-property")
+                    if self.project is not None:
+                        # the first disagreement belongs to another property: keep looking, on this property's own events only
+                        pi, pm = [e for e in impl if self.project(e)], [e for e in mod if self.project(e)]
+                        d2 = first_difference(pi, pm)
+                        if d2 is not None:
+                            kind2, what2 = classify(pi, pm, d2)
+                            if self.relevant(kind2):
+                                ctx = "\n".join("  I %r\n  M %r" % (pi[i] if i < len(pi) else None, pm[i] if i < len(pm) else None) for i in range(max(0, d2 - 3), d2 + 2))
+                                out.violate("model-" + kind2, "implementation and reference interpreter disagree: " + kind2,
+                                            "tick %s: %s (on the projection to this property's events; first overall disagreement: %s %s)\n%s\n%s"
+                                            % (pi[d2][0] if d2 < len(pi) else "?", what2, kind, what, ctx, script[:3500]))
             self.invariants(plan, res, impl, out)
         self.probes(plan, res, impl, out)
         for e in impl:
